@@ -137,7 +137,8 @@ def run_shards(binary, cfg, pid, tier, seed, workdir, replay=None):
             VERIF_NSHARDS=str(nshards),
             VERIF_OUT=sdir,
             VERIF_ROOT=VERIF,
-            VERIF_REGRESS=os.path.join(VERIF, "replays", "regress", pid),
+            # VERIF_NOREGRESS=1 (sensitivity experiments only): generated cases alone decide
+            VERIF_REGRESS="" if os.environ.get("VERIF_NOREGRESS") else os.path.join(VERIF, "replays", "regress", pid),
             VERIF_FOUND=os.path.join(FOUND, pid),
             VERIF_KNOWN=os.path.join(VERIF, "known_findings.json"),
             VERIF_CHECKS=str(t.get("checks", 1000)),
